@@ -324,6 +324,11 @@ def check(ctx):
     for m in repo.modules.values():
         for c in util.calls_in(m.tree):
             ch = attr_chain(c.func)
+            if ch and len(ch) == 1:
+                # `from warnings import filterwarnings`: the name is the module function
+                imp = m.imports.get(ch[0], "")
+                if imp.startswith("warnings."):
+                    ch = ["warnings", imp.split(".", 1)[1]]
             if not ch or ch[0] != "warnings" and ch[-1] not in ("filterwarnings", "simplefilter", "resetwarnings"):
                 continue
             if ch[-1] in ("filterwarnings", "simplefilter"):
@@ -331,6 +336,9 @@ def check(ctx):
                 cat = util.kwarg(c, "category") or (c.args[2] if len(c.args) > 2 and ch[-1] == "filterwarnings" else None)
                 if ch[-1] == "simplefilter" and len(c.args) > 1:
                     cat = c.args[1]
+                for _ in range(3):  # a module constant naming the category (SOLVER_WARNING = UserWarning) reads as the category
+                    if isinstance(cat, ast.Name) and cat.id in m.constants:
+                        cat = m.constants[cat.id]
                 catn = (attr_chain(cat) or ["?"])[-1] if cat is not None else "Warning"
                 modre = util.const(util.kwarg(c, "module"), "")
                 toplevel = util.enclosing_stmt(c) in m.tree.body
